@@ -380,7 +380,7 @@ def _kinds_chunk(chunk):
     return len(chunk), nt, fails
 
 
-ALIASES = ['generator-chain-shared-by-two-targets', 'generated-list-shared-by-two-targets', 'run-target-top-level', 'run-target-inside-subproject', 'subproject-run-target-from-top-level', 'alias-of-alias-in-subproject', 'custom-target-in-subproject']
+ALIASES = ['generated-header-of-a-linked-library-static', 'generated-header-of-a-linked-library-shared', 'generator-chain-shared-by-two-targets', 'generated-list-shared-by-two-targets', 'run-target-top-level', 'run-target-inside-subproject', 'subproject-run-target-from-top-level', 'alias-of-alias-in-subproject', 'custom-target-in-subproject']
 
 
 def _alias_chunk(chunk):
@@ -405,6 +405,18 @@ def _alias_chunk(chunk):
                        + "executable('e1', 'm.c', src)\nexecutable('e2', 'm.c', src)\nstatic_library('s3', src)\n")
                 open(os.path.join(src, 'm.c'), 'w').write('int main(void) { return 0; }\n')
                 open(os.path.join(src, 'x.in'), 'w').write('')
+                want = None
+            elif kind.startswith('generated-header-of-a-linked-library'):
+                # a library whose sources hold a generator() result with a HEADER output, linked by targets that do not process that
+                # input themselves: the consumers wait for the header where the library's statements produce it (inputs closed)
+                top = ("project('p', 'c')\npy = find_program('python3')\n"
+                       "gh = generator(py, output: ['@BASENAME@.h', '@BASENAME@.c'], arguments: ['-c', 'pass', '@INPUT@', '@OUTPUT0@', '@OUTPUT1@'])\n"
+                       + ("lib = static_library('gl', gh.process('defs.in'))\n" if 'static' in kind else "lib = shared_library('gl', gh.process('defs.in'))\n")
+                       + "mid = static_library('mid', 'mid.c', link_with: lib)\n"
+                       "executable('app', 'm.c', link_with: lib)\nexecutable('app2', 'm.c', link_with: mid)\n")
+                open(os.path.join(src, 'm.c'), 'w').write('int main(void) { return 0; }\n')
+                open(os.path.join(src, 'mid.c'), 'w').write('int mid(void) { return 0; }\n')
+                open(os.path.join(src, 'defs.in'), 'w').write('')
                 want = None
             elif kind == 'run-target-top-level':
                 top += RT + "alias_target('al', rt)\n"
@@ -454,7 +466,7 @@ def _alias_chunk(chunk):
 def run(REG, tier, seed, jobs):
     aev, ant, afails = pmap(_alias_chunk, chunked(iter(ALIASES), 1), jobs)
     apart = {'name': 'C04/bounded/alias-targets-across-subprojects', 'function': 'meson setup (ninja back end, stub ninja) -> build.ninja',
-             'bound': f'{len(ALIASES)} projects: a generator chain / a generated list used as a source of three targets; alias_target() of a run target, of another alias, of a custom target — in the top-level project, inside a subproject, and from the top level onto a target of a subproject',
+             'bound': f'{len(ALIASES)} projects: a library with a generator-made header linked by other targets (static / shared); a generator chain / a generated list used as a source of three targets; alias_target() of a run target, of another alias, of a custom target — in the top-level project, inside a subproject, and from the top level onto a target of a subproject',
              'evaluations': aev, 'distinct_nontrivial': ant, 'rule': 'every project', 'exhaustive': True, 'failures': afails}
     kinds = [(k, f) for k in KINDS for f in ('test', 'benchmark')]
     kev, knt, kfails = pmap(_kinds_chunk, chunked(iter(kinds), 1), jobs)
